@@ -173,13 +173,17 @@ TEMPLATES = [
     "max(%(A)s)", "%(A)s fold %(B)s", "%(A)s fold %(B)s from %(C)s", "%(A)s map %(B)s", "%(A)s zip %(B)s", "transpose(%(A)s)",
     "(\\s -> (s[%(A)s] = %(B)s; s))(\"abc\")", "(\\s -> (s[%(A)s] = %(B)s; s))(%(C)s)", "(\\s -> (s[%(A)s] %(OP)s= %(B)s; s))(%(C)s)",
     "(\\s -> (remove s[%(A)s]; s))(%(B)s)", "(\\s -> (pop s; s))(%(A)s)", "(\\s -> (every s[%(A)s:] = %(B)s; s))(%(C)s)",
+    "{%(A)s: %(B)s}", "{%(A)s, %(B)s}", "{:%(A)s, %(B)s: %(C)s}", "set(%(A)s)", "unique(%(A)s)", "frequencies(%(A)s)", "count_distinct(%(A)s)",
+    "y[%(A)s]", "y[%(A)s] = %(B)s", "y[%(A)s] += %(B)s", "%(A)s |. %(B)s", "%(A)s -. %(B)s", "%(A)s || %(B)s", "%(A)s group_all %(B)s",
+    "memoize(\\p -> 1)(%(A)s)", "%(A)s !? %(B)s", "dict([[%(A)s, %(B)s]])", "remove y[%(A)s]",
     "%(A)s::precedence = %(B)s", "freeze (\\p -> p + %(A)s)", "F\"{%(A)s}\"", "%(A)s . %(B)s", "%(A)s then %(B)s", "%(A)s <=> %(B)s",
 ]
 OPS = ["+", "-", "*", "/", "%", "//", "%%", "/!", "^", "&", "|", "~", "<<", ">>", "==", "<", "<=", "max", "gcd", "lcm", "++", "**", ".+", "+.", "..",
        "||", "&&", "--", "|.", "zip", "til", "to", "$", ".*", "!!", "!?", "in"]
 SMALL_OPERANDS = ["0", "1", "2", "3", "4", "(0-1)", "5", '"é"', '"€uro"', '"k"', "[0]", "[1, 1]", "(0-5)", "(2^63-1)", "(0-2^63)", "2^64", "(1/2)", "1.5", "(0.0/0.0)", "(1.0/0.0)", "(1+2i)", '""', '"a"', '"héllo"',
                   "[]", "[1, 2, 3]", "[[1, 2], [3]]", '["a"]', "{}", '{"a": 1}', "{:0}", "V()", "V(1, 2)", 'B""', "B[255]", "(1 to 3)", "(1 to 0)", "null",
-                  "id", "(+1)", "(\\p, q -> p)", "int", "str", "list", "x", "y", "len"]
+                  "id", "(+1)", "(\\p, q -> p)", "int", "str", "list", "x", "y", "len",
+                  "{1: len}", "[{1: id}]", "{1: 1 to 3}", "(2^64 - 2^64)", "(1 // 2)", "(1 >> 3)"]
 
 
 def subst(t, c):
@@ -247,8 +251,8 @@ def check_stmts(nl, cases, ctx=None):
 WRAP = "(\\x, y, a, b, c -> try (%s) catch e__ -> \"caught\")([1, [2, 3], {\"k\": [4]}, \"str\", V(5, 6), B[7]], {\"a\": [1, 2], \"b\": 3}, 0, 0, 0)"
 GLOBAL_EFFECT = ("::precedence", "struct ")
 OPND3 = ["0", "1", "3", "(0-1)", "(2^63-1)", "(0-2^63)", "int(\"-9223372036854775808\")", "2^64", "(1/2)", "1.5", '"a"', '"é"', "[]", "[1, 2, 3]", '{"a": 1}', "V(1, 2)", "B[255]", "(1 to 3)",
-         "null", "(+1)", "x", "int"]
-OPS_ENUM = ["+", "%", "//", "%%", "/!", "^", "<<", "++", "**", ".+", "||", "zip", "til", "$", "!!", "max", "&", "=="]
+         "null", "(+1)", "x", "int", "{1: len}", "(2^64 - 2^64)", "(1 // 2)"]
+OPS_ENUM = ["+", "/", "%", "//", "%%", "/!", "^", "<<", "++", "**", ".+", "||", "zip", "til", "$", "!!", "max", "&", "=="]
 
 
 def template_cases(ti):
